@@ -21,7 +21,7 @@ CHECKS = {
             "content carries unique text and binary markers; after quiescence the checker requires exactly one delivery per "
             "intended recipient with identical protobuf content, sender and group identity, none elsewhere, no delivery without "
             "a sent message, the recipient's delivery receipt at the sender, re-acknowledged duplicates, a retry receipt after "
-            "corruption, and no marker in any frame that left a client. 420 runs quick / 25 000 thorough; schedules sampled. A plaintext frame is attributed to the known recipient-without-keys mechanism by what the server double observed (its directory had no keys for the recipient when the sender asked), not by the scenario. Message kinds include replies quoting an earlier message; the leading field of every delivered message (text, caption url, name, quoted text) is read from the entity itself and compared with what the sender wrote, independently of the library's converter. In a quarter of the framed runs every send happens in its own application thread while the scheduler keeps delivering to the same client (yield injection in the axolotl layers, manager and stores). A third of the accounts run with the identity auto-trust option on (nobody changes identity in these runs); one restart in four finds the key store locked at first. In 30% of the runs the server double relays group messages with the sender-key part before the pairwise part.",
+            "corruption, and no marker in any frame that left a client. 420 runs quick / 25 000 thorough; schedules sampled. A plaintext frame is attributed to the known recipient-without-keys mechanism by what the server double observed (its directory had no keys for the recipient when the sender asked), not by the scenario. Message kinds include replies quoting an earlier message; the leading field of every delivered message (text, caption url, name, quoted text) is read from the entity itself and compared with what the sender wrote, independently of the library's converter. In a quarter of the framed runs every send happens in its own application thread while the scheduler keeps delivering to the same client (yield injection in the axolotl layers, manager and stores). A third of the accounts run with the identity auto-trust option on (nobody changes identity in these runs); one restart in four finds the key store locked at first. In 30% of the runs the server double relays group messages with the sender-key part before the pairwise part. Runs that do not become quiet within 6 000 scheduler steps (quiet ones need about 500) are livelock violations, with the number of retry receipts seen; 30% of the runs relay 1:1 retry receipts with an empty participant attribute.",
             "Trusted: the server double (our reading of the server's routing), python-axolotl (padding shim). Framed wiring without noise/segments (C04/C11 cover those).",
             "DESIGN.md 4/C03"),
     "C01": ("exploration",
@@ -30,7 +30,7 @@ CHECKS = {
             "length 1..255 incl. JID users, '@' placements, content sizes around 2^8/2^16/2^20 alone, followed by a sibling "
             "and nested two levels down, list sizes around 128/256, every byte value) plus 3 000 (quick) / 160 000 (thorough, "
             "incl. two ~16 MiB nodes) random trees are round-tripped through the real encoder and decoder and compared by an "
-            "independent strict comparator. Sampled above the sweep; no finite run covers all trees. Every seventh decoded tree is annotated afterwards (attributes set, a child added): later cases, compared with plain data, expose any state shared between node objects. Every 11th case a stream-end frame is decoded (and received by the coder layer) between two stanzas; what follows is judged as before. After every fifth tree a sibling (equal tag, attributes, data, child count and first child; different further down) goes through the same encoder, decoder and layers.",
+            "independent strict comparator. Sampled above the sweep; no finite run covers all trees. Every seventh decoded tree is annotated afterwards (attributes set, a child added): later cases, compared with plain data, expose any state shared between node objects. Every 11th case a stream-end frame is decoded (and received by the coder layer) between two stanzas; what follows is judged as before. After every fifth tree a sibling (equal tag, attributes, data, child count and first child; different further down) goes through the same encoder, decoder and layers. Every 13th case a tree with a character beyond Latin-1: refused (by the encoder or by the coder layer's byte conversion) or carried, never altered.",
             "Trusted: the comparator and generators. Inputs well-formed per the quantifier.",
             "DESIGN.md 4/C01"),
     "C02": ("exploration",
@@ -74,7 +74,7 @@ CHECKS = {
             "emitter x consumer x emit/broadcast x normal/detached event (exactly once, in order, nothing after the consumer, "
             "deferred part only after the library's own loop body ran), interface lookup by class; all 16 getProtocolLayers/"
             "getDefaultLayers combos, positional forms, all 32x2 getDefaultStack combos, pushDefaultLayers. Exhaustive for the "
-            "small shapes and the flag space, sampled above. Every stack built by the default helpers is kept and its wiring (neighbour links, stack membership of every layer and sublayer) is verified again after later stacks were built; a builder with a pushed, popped and pushed layer is included. The library's own pass-through layer (logger) is placed as plain layer and as member of parallel groups of every size/position in explicit, implicit and builder compositions: data must reach every layer once. Four stacks carry a subclass of the library's interface layer on top: each finds the network/auth interfaces of its own stack, in any asking order. 150 stacks of random shape over the library's own YowNetworkLayer: its dispatcher callbacks are called for 2-4 connections in a row; connected seen once at once, disconnected once by the neighbour at once and by the rest only when the loop runs. 120 stacks of the library's own layers (any module selection, with/without encryption layers) under drawn values of ping interval, passive, auto-trust and reconnect: events emitted below reach a probe above exactly once, broadcasts from above reach a probe below exactly once. Eight complete default stacks (any module selection) through a whole first login against the server double: the network layer's state events are seen once, in order, above the whole stack.",
+            "small shapes and the flag space, sampled above. Every stack built by the default helpers is kept and its wiring (neighbour links, stack membership of every layer and sublayer) is verified again after later stacks were built; a builder with a pushed, popped and pushed layer is included. The library's own pass-through layer (logger) is placed as plain layer and as member of parallel groups of every size/position in explicit, implicit and builder compositions: data must reach every layer once. Four stacks carry a subclass of the library's interface layer on top: each finds the network/auth interfaces of its own stack, in any asking order. 150 stacks of random shape over the library's own YowNetworkLayer: its dispatcher callbacks are called for 2-4 connections in a row; connected seen once at once, disconnected once by the neighbour at once and by the rest only when the loop runs. 120 stacks of the library's own layers (any module selection, with/without encryption layers) under drawn values of ping interval, passive, auto-trust and reconnect: events emitted below reach a probe above exactly once, broadcasts from above reach a probe below exactly once. Eight complete default stacks (any module selection) through a whole first login against the server double: the network layer's state events are seen once, in order, above the whole stack. Two stacks from every published yowsup.stacks.YOWSUP_* tuple; earlier stacks stay wired to their own layers.",
             "Trusted: the reference interpreter (our reading of the statement). Siblings inside the emitter's/consumer's own group: only 'at most once'.",
             "DESIGN.md 4/C18"),
     "C19": ("fault_enumeration",
@@ -95,7 +95,7 @@ CHECKS = {
             "before/after each DML statement, before/after each commit, every Python line in store/sqlite/*.py - is a crash point: "
             "a forked child is killed there, the parent reopens the file and requires every record to be its old or its new "
             "value, never missing; plus two-party conversations continued across restarts of either side. Crash points are "
-            "complete per operation instance; states and sequences are sampled. Manager level: level_prekeys / generate_signed_prekey / set_prekeys_as_sent through AxolotlManager with batch sizes 1..205; after every returned call the database files are copied as a kill would leave them and the copy must show what the live store shows. Crash children first replay a state-preserving tail of the history (and sometimes an upload confirmation) on their own connection before the judged operation. Busy start: another connection holds the profile's key store lock past the busy timeout while the client starts through the factory; after the lock is gone the next start must find the stored state. Ops store...Again: a record is stored under an id that is taken; refused or replaced, whatever the live store shows has to survive the restart that follows at once in half of the cases. Profiles: 2-3 profiles in one process, two of them for the same phone number; each key store file, read on its own, shows what was stored through that profile.",
+            "complete per operation instance; states and sequences are sampled. Manager level: level_prekeys / generate_signed_prekey / set_prekeys_as_sent through AxolotlManager with batch sizes 1..205; after every returned call the database files are copied as a kill would leave them and the copy must show what the live store shows. Crash children first replay a state-preserving tail of the history (and sometimes an upload confirmation) on their own connection before the judged operation. Busy start: another connection holds the profile's key store lock past the busy timeout while the client starts through the factory; after the lock is gone the next start must find the stored state. Ops store...Again: a record is stored under an id that is taken; refused or replaced, whatever the live store shows has to survive the restart that follows at once in half of the cases. Profiles: 2-3 profiles in one process, two of them for the same phone number; each key store file, read on its own, shows what was stored through that profile. Profile switch: one stack connects as A, disconnects, setProfile(B), connects: keys offered afterwards are B's, A's file is untouched.",
             "Trusted: SQLite's atomic commit, the filesystem, python-axolotl (with the block-aligned padding shim). Process death only.",
             "DESIGN.md 4/C13"),
     "C10": ("exploration",
@@ -117,7 +117,7 @@ CHECKS = {
             "plain, cut-off-then-retry, cut-inside-reply-then-retry, reconnect-after-transport, corrupted reply (must surface "
             "as <failure> + event, not hang). The responder checks the presented account/passive/push name/user agent and "
             "decrypts client frames strictly in counter order; server frames glued to the reply and random traffic both ways "
-            "must arrive intact and in order; the stored profile must hold a changed server key. Interleavings are sampled. A completion-race sweep holds the handshake worker inside its last write and releases it at line event k (every k) of the network thread's delivery of the first transport frames; frames sent around completion must be up before anything else is sent (a stranded frame with all threads idle is a violation). History relogin-after-server-failure: <failure/> after the handshake, the layer above closes the connection from inside that delivery, a partial further frame follows in the same segment, then a new login. Over both real dispatchers (loopback TCP): login, then a 6-12 MB stanza next to small ones while the peer does not read for 0.3-2.5 s; all must arrive whole, once, in order. In a third of the cases logins are started by the library's authentication layer on the connected announcement (also after an attempt that was cut off).",
+            "must arrive intact and in order; the stored profile must hold a changed server key. Interleavings are sampled. A completion-race sweep holds the handshake worker inside its last write and releases it at line event k (every k) of the network thread's delivery of the first transport frames; frames sent around completion must be up before anything else is sent (a stranded frame with all threads idle is a violation). History relogin-after-server-failure: <failure/> after the handshake, the layer above closes the connection from inside that delivery, a partial further frame follows in the same segment, then a new login. Over both real dispatchers (loopback TCP): login, then a 6-12 MB stanza next to small ones while the peer does not read for 0.3-2.5 s; all must arrive whole, once, in order. In a third of the cases logins are started by the library's authentication layer on the connected announcement (also after an attempt that was cut off). 15% of the client's stanzas after the handshake carry a character beyond Latin-1: refused or arriving intact.",
             "Trusted: dissononce/consonance (with the randint shim), the responder double. Hang = stable blocked state, a bare timeout is inconclusive.",
             "DESIGN.md 4/C04"),
     "C11": ("exploration",
@@ -154,7 +154,7 @@ CHECKS = {
             "After every event the harness asks the observer's store which of the contact's identities it trusts: once the two "
             "have exchanged a message a pin must exist; without automatic trust it must stay the first identity, no message from "
             "or for the new identity may be delivered; with automatic trust the pin moves forward only and the last message of "
-            "each direction after the change must arrive. Mutants (trust check always true, default on) are caught. Histories include first messages that stay undecryptable on every retransmission (identity presented, no session), the server double giving up after three. In half of the histories the server double sends identity-change notifications to the other accounts when an account re-registers. Event restart-a-busy: A's first start finds its key store locked by another process. Other accounts may have the option on when A has not; clients are created in any order and in half of the histories assembled through YowStackBuilder with the options set on the builder. Event x>a-broadcast: the server relays X's message as a broadcast-list / status message (from = list, participant = X). Calls into a stack that do not return are interrupted after 6 s of processor time and judged like an exception.",
+            "each direction after the change must arrive. Mutants (trust check always true, default on) are caught. Histories include first messages that stay undecryptable on every retransmission (identity presented, no session), the server double giving up after three. In half of the histories the server double sends identity-change notifications to the other accounts when an account re-registers. Event restart-a-busy: A's first start finds its key store locked by another process. Other accounts may have the option on when A has not; clients are created in any order and in half of the histories assembled through YowStackBuilder with the options set on the builder. Event x>a-broadcast: the server relays X's message as a broadcast-list / status message (from = list, participant = X). Calls into a stack that do not return are interrupted after 6 s of processor time and judged like an exception. 40% of the histories relay 1:1 retry receipts with an empty participant attribute (the documented shape).",
             "Trusted: the server double (drops the old installation's keys on re-registration). Histories sampled.",
             "DESIGN.md 4/C17"),
     "C12": ("fault_enumeration",
@@ -184,7 +184,7 @@ CHECKS = {
             "dispatchers over loopback TCP (peer close, local disconnect, refused connect, stream error with automatic "
             "reconnect, re-login after the network thread ended, immediate re-login from another thread while the first "
             "connect() has not returned, login failure), with yield injection inside the dispatchers; judged on announcement "
-            "counts, network-thread termination, no spurious close, resumed (IK) handshake, exceptions in network threads. Real dispatchers: ECONNRESET is injected into the next socket write of the socket and asyncore dispatchers over loopback; the failing send and a later send from another thread must return, no lock may stay held (layer locks and the dispatcher's), the connection is announced down once and a reconnect logs in and carries a stanza. Further events: the connection going down at line event k of the keep-alive thread's step (random k in histories; k=1..20 as scripted sweeps followed by a relogin with every ping answered), a partial further frame behind a connection-ending stanza, a connect request before the stack's loop has delivered the previous 'disconnected' announcement (judged), the new connection even coming up before that (known finding reconnect-up-before-loop-turn), and for asyncore a disconnect() placed between the loop's descriptor collection and its select(). Upward failure under the real dispatchers: a layer raises on an incoming frame, the application reconnects from another thread once the announcement has reached it while the old network thread is held at its next line; the new connection must log in, stay up, be announced down zero times and carry a stanza. A pong may arrive while the keep-alive thread is still inside the send of its ping (event tick-pong-race and scripted histories), after which answered pings must never time out. After every non-critical failure two threads send at once (the thread that saw the failure inside a long send, a second one joining), with yield injection; the strict peer must still decrypt everything exactly once. Real scenario first-login-reboot: passive login, key upload confirmed by the server thread, the library's own close and non-passive reconnect, with the network thread held at its next line in the control layer until the loop thread has worked off the announcement. Race placement after every non-critical failure: the thread that saw the failure, or a fresh one, is held between cipher counter and write queue while the other sends or acknowledges (five role combinations). Key-request failures: a message from a sender without session, the key request fails (answer without keys; failpoint while it goes down), the sender's next message must be handled like the first. Event connect-request-while-up: refused, nothing changes. Real dispatchers: a layer raises on an incoming frame (harness shared with C12): announced down once, a new connect logs in. Natural failure key-request-without-t: a key-count notification the library cannot parse, then a well-formed one has to lead to an upload. Stream errors with text before condition.",
+            "counts, network-thread termination, no spurious close, resumed (IK) handshake, exceptions in network threads. Real dispatchers: ECONNRESET is injected into the next socket write of the socket and asyncore dispatchers over loopback; the failing send and a later send from another thread must return, no lock may stay held (layer locks and the dispatcher's), the connection is announced down once and a reconnect logs in and carries a stanza. Further events: the connection going down at line event k of the keep-alive thread's step (random k in histories; k=1..20 as scripted sweeps followed by a relogin with every ping answered), a partial further frame behind a connection-ending stanza, a connect request before the stack's loop has delivered the previous 'disconnected' announcement (judged), the new connection even coming up before that (known finding reconnect-up-before-loop-turn), and for asyncore a disconnect() placed between the loop's descriptor collection and its select(). Upward failure under the real dispatchers: a layer raises on an incoming frame, the application reconnects from another thread once the announcement has reached it while the old network thread is held at its next line; the new connection must log in, stay up, be announced down zero times and carry a stanza. A pong may arrive while the keep-alive thread is still inside the send of its ping (event tick-pong-race and scripted histories), after which answered pings must never time out. After every non-critical failure two threads send at once (the thread that saw the failure inside a long send, a second one joining), with yield injection; the strict peer must still decrypt everything exactly once. Real scenario first-login-reboot: passive login, key upload confirmed by the server thread, the library's own close and non-passive reconnect, with the network thread held at its next line in the control layer until the loop thread has worked off the announcement. Race placement after every non-critical failure: the thread that saw the failure, or a fresh one, is held between cipher counter and write queue while the other sends or acknowledges (five role combinations). Key-request failures: a message from a sender without session, the key request fails (answer without keys; failpoint while it goes down), the sender's next message must be handled like the first. Event connect-request-while-up: refused, nothing changes. Real dispatchers: a layer raises on an incoming frame (harness shared with C12): announced down once, a new connect logs in. Natural failure key-request-without-t: a key-count notification the library cannot parse, then a well-formed one has to lead to an upload. Stream errors with text before condition. Natural failure truncated-compressed-frame (deflate stream without its end): has to be reported, nothing of it delivered.",
             "Trusted: the reference machine (our reading of the statement), scripted dispatcher, loopback server thread. First login (key upload, reconnect) precedes the judged history.",
             "DESIGN.md 4/C16"),
     "C09": ("exploration",
@@ -215,7 +215,7 @@ CHECKS = {
             "payload, unknown media type, media-typed without media type, supported media with the media module left out) are "
             "injected into a stack of bottom probe + axolotl control/send/receive + protocol group for each of the 16 module "
             "selections (40 draws per cell quick, 1 500 thorough). Exactly one ack/receipt/pong with the stanza's id, class, "
-            "type, sender, participant (absent when absent) and call id must be sent down. Four seeded mutants are caught. Encrypt-count notifications carry values over the whole range (0, 9, 10, 11, 100, 811, 812, random). Status notifications come with absent, empty, 1-byte, multi-byte and long bodies. Every 5th stanza is delivered again at once and one from 2 / 9 / 70 stanzas ago every 7th time: answered like a first delivery. Every 9th stanza carries an unknown extra attribute and / or child; senders inside newer group ids without a dash, broadcast lists and the status list.",
+            "type, sender, participant (absent when absent) and call id must be sent down. Four seeded mutants are caught. Encrypt-count notifications carry values over the whole range (0, 9, 10, 11, 100, 811, 812, random). Status notifications come with absent, empty, 1-byte, multi-byte and long bodies. Every 5th stanza is delivered again at once and one from 2 / 9 / 70 stanzas ago every 7th time: answered like a first delivery. Every 9th stanza carries an unknown extra attribute and / or child; senders inside newer group ids without a dash, broadcast lists and the status list. Revoke messages leave the protocol-message type at its (unserialised) default half of the time.",
             "Trusted: our reading of the required answer shapes. Kinds x selections complete, values sampled.",
             "DESIGN.md 4/C07"),
     "C08": ("exploration",
@@ -227,7 +227,7 @@ CHECKS = {
             "with and without the axolotl layers. Exactly the predicted callback must fire, once, with the original request "
             "object and the matching reply; anything else must fire nothing. Library-internal requests (key fetch incl. "
             "error/unknown/duplicate replies, key upload) are judged by their effect (message sent once / keys marked sent). "
-            "Four seeded mutants (shared registry, both callbacks, entry not removed, original not attached) are caught. The send layer's internal chain for a first group message (group info, then one key request for all members without session) runs with key results that leave members out and with replayed results: the message leaves exactly once, the sender key goes to exactly the keyed members, replays trigger nothing. Concurrent runs: 2-4 application threads and a keep-alive-like sender issue requests while a receive thread answers them, with yield injection in the registry code; every callback / reply entity exactly once. Non-reply iq stanzas carrying a pending id have type get, set, none or an unknown one; upload requests are answered with both result shapes. A quarter of the requests are twins of an earlier one (same target and arguments, new id), issued while the first is outstanding or after it was answered. Group-list replies are generated lists of 0..4 groups (empty container included).",
+            "Four seeded mutants (shared registry, both callbacks, entry not removed, original not attached) are caught. The send layer's internal chain for a first group message (group info, then one key request for all members without session) runs with key results that leave members out and with replayed results: the message leaves exactly once, the sender key goes to exactly the keyed members, replays trigger nothing. Concurrent runs: 2-4 application threads and a keep-alive-like sender issue requests while a receive thread answers them, with yield injection in the registry code; every callback / reply entity exactly once. Non-reply iq stanzas carrying a pending id have type get, set, none or an unknown one; upload requests are answered with both result shapes. A quarter of the requests are twins of an earlier one (same target and arguments, new id), issued while the first is outstanding or after it was answered. Group-list replies are generated lists of 0..4 groups (empty container included). Error replies carry a back-off attribute in 30% of the cases.",
             "Trusted: the reference registry and the documented reply shapes of vf/catalogue.py. Histories sampled.",
             "DESIGN.md 4/C08"),
 }
